@@ -120,8 +120,16 @@ func (c *Ctx) finish() {
 	}
 	sort.Strings(rules)
 	for _, r := range rules {
-		if counts[r] < c.floors[r] {
-			c.add(r, "instance floor", "?", false, false, fmt.Sprintf("vacuous: rule matched %d site(s), fewer than the %d confirmed by hand; the rule would pass without checking anything", counts[r], c.floors[r]))
+		// The floor guards against a rule that silently stopped matching, not against a refactoring
+		// that merges a few of its sites into a helper: a quarter of the hand-confirmed count (at least
+		// one site) may disappear before the rule is declared vacuous.
+		floor := c.floors[r]
+		slack := floor / 4
+		if slack < 1 && floor > 1 {
+			slack = 1
+		}
+		if counts[r] < floor-slack {
+			c.add(r, "instance floor", "?", false, false, fmt.Sprintf("vacuous: rule matched %d site(s), the hand-confirmed count is %d (tolerance %d); the rule would pass without checking anything", counts[r], floor, slack))
 		}
 	}
 }
